@@ -36,7 +36,8 @@ var propSpecs = map[string]*PropSpec{
 		{"benchproc", "filtersem", "whole filters against reference boolean semantics per measurement (Test, All, Any, Apply, Match leaves the result untouched), in varied concrete syntax, with measurement counts crossing 32 and 64; fixed-list projections"}}},
 	"C07": {ID: "C07", Pkgs: []string{"./benchproc", "./benchproc/internal/parse"}, BoundedChecks: []boundedSpec{
 		{"benchproc", "filtersyntax", "expressibility of arbitrary strings as quoted words in every term position, unquoted words, the documented rejections, and no panic / positioned errors on every short text over the syntax alphabet — stands in for the recursive-descent parser and the semantic checks in NewFilter/makeProjection, which are not under contract"}}},
-	"C08": {ID: "C08", Pkgs: []string{"./benchproc"}},
+	"C08": {ID: "C08", Pkgs: []string{"./benchproc"}, BoundedChecks: []boundedSpec{
+		{"benchproc", "keys", "key identity against independently extracted value tuples across field growth, Key.Get exactness, per-unit keys, exclusion of specific keys from .config/.fullname in every parse order, internal configuration never entering .config, and the lose-nothing equivalence with the residue, on seeded random streams — the projection closures (which alias the row buffer through an interior pointer), populateRow and the lazily built full-name extractor are not under contract"}}},
 	"C09": {ID: "C09", Pkgs: []string{"./benchproc"}, BoundedChecks: []boundedSpec{
 		{"benchproc", "keyorder", "the documented per-field orders against reference semantics (incl. the fuzzy number parser, which is only under a determinism assumption), first-observation ranks of .config sub-fields, the flattened-field cache, and the order axioms / arrangement independence of SortKeys on concrete key sets"}}},
 	"C10": {ID: "C10", Pkgs: []string{"./benchunit"}, BoundedChecks: []boundedSpec{
